@@ -411,3 +411,33 @@ func sameWeb(v, w ssa.Value) bool {
 	}
 	return false
 }
+
+// scanExhaustive discharges "the loop with the given header examines every
+// element": the only edges that leave the loop are the header's own exit, edges
+// that lead only to non-nil-error returns, and the explicitly allowed ones.
+func scanExhaustive(c *Ctx, r *R, key string, head *ssa.BasicBlock, allowed []eng.Edge, what string) bool {
+	ok := true
+	isAllowed := func(e eng.Edge) bool {
+		for _, a := range allowed {
+			if a == e {
+				return true
+			}
+		}
+		return false
+	}
+	for _, e := range eng.LoopExits(head) {
+		if e.From == head || isAllowed(e) {
+			continue
+		}
+		if eng.LeadsOnlyToErr(e, "") == nil {
+			continue
+		}
+		ok = false
+		last := e.From.Instrs[len(e.From.Instrs)-1]
+		r.Bad(key, pos(last), "%s: the scan can stop before every element was examined (early exit at %s)", what, c.Rel(pos(last)))
+	}
+	if ok {
+		r.Ok(key, pos(head.Instrs[len(head.Instrs)-1]), "%s: every element is examined (no early normal exit)", what)
+	}
+	return ok
+}
